@@ -37,6 +37,25 @@ internal/adapter/unifier/catalog_store.go
 internal/adapter/filter/glob_filter.go
 internal/adapter/discovery/service.go
 "
+# S1 can also yield between statements of a few request-path files (locks private to each file):
+# the same instrumenter, the yields are sleeps of the bubble's clock (see sim/hooks_verif.go)
+S1FILES="
+internal/app/handlers/handler_provider_common.go
+internal/app/handlers/handler_proxy.go
+internal/adapter/proxy/core/retry.go
+internal/adapter/security/request_rate_limit.go
+internal/adapter/stats/collector.go
+internal/adapter/discovery/repository.go
+internal/adapter/balancer/priority.go
+internal/adapter/balancer/round_robin.go
+internal/adapter/balancer/least_connections.go
+"
+if [ "$ENGINE" = s1 ]; then
+  rm -rf "$B/inst"; mkdir -p "$B/inst"
+  files=""
+  for f in $S1FILES; do [ -f "$R/$f" ] && files="$files $R/$f"; done
+  (cd "$V/cmd/yieldgen" && "$GO" run main.go "$B/inst" $files) > "$B/inst/sites.txt"
+fi
 if [ "$ENGINE" = s2 ]; then
   rm -rf "$B/inst"; mkdir -p "$B/inst"
   # porcupine for linearizability checks: exact cached version
@@ -84,6 +103,12 @@ if engine=='s1':
     for f in sorted(os.listdir(V+'/sim')):
         if f.endswith('.go'):
             rep[R+'/internal/verifsim/'+f]=V+'/sim/'+f
+    for f in sorted(os.listdir(V+'/yield')):
+        if f.endswith('.go'):
+            rep[R+'/internal/verifyield/'+f]=V+'/yield/'+f
+    for f in sorted(os.listdir(B+'/inst')):
+        if f.endswith('.go'):
+            rep['/'+f.replace('__','/')]=B+'/inst/'+f
 else:
     for f in sorted(os.listdir(V+'/sim2')):
         if f.endswith('.go'):
